@@ -236,6 +236,10 @@ func (c *Ctx) sitesDepth(fn *ssa.Function, depth int, onStack map[*ssa.Function]
 						ns := ws
 						ns.alt = k + 1
 						ns.cond = andDNF(ws.cond, a.cond)
+						// the text is produced by the helper: the site counts as the helper's,
+						// seen from here (duties on it are judged like those of an inlined write)
+						ns.via = callee(call)
+						ns.depth = 1
 						switch {
 						case a.konst:
 							ns.konst, ns.format = true, a.text
@@ -467,7 +471,7 @@ func (c *Ctx) siteDuties(fns []*ssa.Function, relevant func(ws writeSite) bool, 
 				}
 				seen[f] = true
 				for _, ws2 := range c.sitesOf(f) {
-					if ws2.via == it.fn && ws2.inner == it.ws.inner && ws2.depth == it.ws.depth+1 {
+					if ws2.via == it.fn && ws2.inner == it.ws.inner && ws2.depth == it.ws.depth+1 && ws2.alt == it.ws.alt {
 						work = append(work, item{f, ws2})
 						n++
 					}
@@ -479,6 +483,7 @@ func (c *Ctx) siteDuties(fns []*ssa.Function, relevant func(ws writeSite) bool, 
 			// directly sees the alternatives as its own sites (stringAlts) and is judged there
 			calls := c.W.callsTo(it.fn)
 			all := len(calls) > 0
+			seen := map[*ssa.Function]bool{}
 			for _, call := range calls {
 				v, isV := call.(ssa.Value)
 				written := false
@@ -495,6 +500,16 @@ func (c *Ctx) siteDuties(fns []*ssa.Function, relevant func(ws writeSite) bool, 
 					}
 				}
 				all = all && written
+				f := call.Parent()
+				if !written || f == nil || seen[f] {
+					continue
+				}
+				seen[f] = true
+				for _, ws2 := range c.sitesOf(f) {
+					if ws2.via == it.fn && ws2.depth == 1 && ws2.method == "WriteString" && ws2.alt > 0 && ws2.format == it.ws.format {
+						work = append(work, item{f, ws2})
+					}
+				}
 			}
 			d.transferred = all
 		}
